@@ -17,7 +17,9 @@ let id_of_index k =
   | None -> let i = Url.parse_uid (bytes_of_string (fake_name k)) in Hashtbl.add id_tbl k i; i
 
 let st = ref Files.init
-(* model time in hours: AGE h makes every upload record h hours older = the clock moves on by h *)
+(* model time in nanoseconds (time.Duration): AGE h / AGES sec make every upload record h hours / sec seconds older
+   = the clock moves on by that much *)
+let hour_ns = 3600 * 1000000000
 let clock = ref 0
 (* (topic, user) -> (want, given) as set up by TOPIC (the owner: full access) and MEMBER lines *)
 let members : ((string * string) * (int * int)) list ref = ref []
@@ -200,13 +202,18 @@ let handle (w : string list) : string =
     st := Files.step !st (Files.ODelUser (n_of_string u)); "DELUSER 200"
   | ["GC"; kind; lim] ->
     let older = match kind with
-      | "future" -> Some (z_of_int (!clock + 1)) | "past" -> Some (z_of_int (!clock - 1)) | _ -> None in
+      | "future" -> Some (z_of_int (!clock + hour_ns)) | "past" -> Some (z_of_int (!clock - hour_ns)) | _ -> None in
     st := Files.step !st (Files.OGC (older, z_of_int (int_of_string lim))); "GC true"
   | ["DUMP"] -> dump ()
   | ["SYSLOAD"] ->
     (* 'sys' is topic 0 of the model; it exists from the start and is never deleted *)
     st := Files.step !st (Files.OAddTopic (n_of_int 0)); "SYSLOAD ok"
-  | ["AGE"; h] -> clock := !clock + int_of_string h; "AGE ok"
+  | ["AGE"; h] -> clock := !clock + hour_ns * int_of_string h; "AGE ok"
+  | ["AGES"; sec] -> clock := !clock + 1000000000 * int_of_string sec; "AGES ok"
+  | ["GCRUN"; ms; block] ->
+    (* one tick of largeFileRunGarbageCollection (Sys/FilesTypeC16f.v); further ticks a few ms later remove nothing more *)
+    st := FilesTypeC16f.gc_tick_c16f !st (z_of_int !clock) (z_of_int (1000000 * int_of_string ms)) (z_of_int (int_of_string block));
+    "GCRUN ok"
   | ["P2P"; t; u1; u2; w1; w2] ->
     (* a p2p topic and its two subscriptions; each party is given what the other grants by default (R and W included) *)
     st := Files.step !st (Files.OAddTopic (n_of_string t));
@@ -327,4 +334,15 @@ let handle (w : string list) : string =
     let calls = List.map (fun (c, failed) -> letter c ^ (if failed then "!" else "")) (List.rev s1.FilesAccC16c.aa_calls) in
     "NEWACCX code=" ^ string_of_z o.FilesAccC16c.ao_code
     ^ " calls=" ^ String.concat "," calls
+  | "UPT" :: rest ->
+    (* largeFileReceive's type decision + largeFileServe's disposition (Sys/FilesTypeC16f.v); sniff / pok / pmt / pfmt
+       are the results of http.DetectContentType, mime.ParseMediaType, mime.FormatMediaType observed by the driver *)
+    let m = kv rest in
+    let g = get m in
+    let hexv k = if g k = "-" || g k = "" then [] else bytes_of_hex (g k) in
+    if g "sniff" = "-" then "UPT noext" else
+    let declared = if g "pok" = "1" then Some { FilesTypeC16f.d_media = hexv "pmt"; d_formatted = hexv "pfmt" } else None in
+    let asatt = g "asatt" <> "-" && parse_bool (g "asatt") in
+    let (stored, att) = FilesTypeC16f.served_c16f asatt (hexv "sniff") declared in
+    "UPT 200 200 stored=" ^ hex_of_bytes stored ^ " ct=" ^ hex_of_bytes stored ^ " cd=" ^ (if att then "1" else "0") ^ " bytes=1"
   | _ -> "?"
